@@ -204,6 +204,9 @@ static void c01_case (long idx, vf_rng *r)
             dp[x] = (uint32_t)da << 24 | dc << 16 | ((dc * 5) & 0xff) << 8 | (255 - dc);
         }
     }
+    /* a repeat mode on the destination changes nothing about what is drawn (it only lets an alpha-less destination be flagged opaque, which
+     * selects the 'destination opaque' column of the operator reductions) */
+    if (vf_chance (r, 1, 4)) { pixman_image_set_repeat (D.img, VF_PICK (r, ((pixman_repeat_t[]){ PIXMAN_REPEAT_NORMAL, PIXMAN_REPEAT_PAD, PIXMAN_REPEAT_REFLECT }))); vf_count ("destinations_with_a_repeat_mode", 1); }
     vf_buf_snapshot (&D.buf);
     char shd[96]; shd[0] = 0; if (shared_pair) snprintf (shd, sizeof shd, " [one buffer: source view at (%d,%d), mask view at (%d,%d)]", S.xo, S.yo, M.xo, M.yo);
     vf_case_desc ("op=%s mask=%s src=%s%s mask_fmt=%s%s dst=%s n=%d chain='%s'%s", ro_op_name (op), mode_name[mode], rp_name (sf), skind == 1 ? "(solid)" : skind == 2 ? "(1x1 repeat)" : "",
